@@ -115,7 +115,7 @@ def run_shard(ctx):
         case = dict(case, transform=tkind)
         check_case(ctx, case)
 
-    runner.drive(ctx, test, ctx.n(1600, 40000))
+    runner.drive(ctx, test, ctx.n(8000, 80000))
 
 
 def replay(ctx, case):
